@@ -7,7 +7,22 @@ from typing import Callable
 from . import astu
 
 
+_DEFS_CACHE: dict = {}
+
+
 def defs(func, name) -> list:
+  """All (value_expr, stmt, index) bound to `name` in the function's own body (memoised per function node)."""
+  node = astu._n(func)
+  tab = _DEFS_CACHE.get(id(node))
+  if tab is None or tab[0] is not node:
+    tab = (node, {})
+    _DEFS_CACHE[id(node)] = tab
+  if name not in tab[1]:
+    tab[1][name] = _defs(node, name)
+  return list(tab[1][name])
+
+
+def _defs(func, name) -> list:
   """All (value_expr, stmt, index) bound to `name` in the function's own body.
 
   value_expr is the assigned expression; for tuple unpacking `a, b = e` it is
